@@ -1,3 +1,6 @@
 import Uflow.Props.C06
 open Uflow.Props.C06
 #print axioms C06_emit_alloc_le
+#print axioms C06_recv_alloc
+#print axioms C06_recv_held
+#print axioms C06_recv_state_bounded
